@@ -73,6 +73,8 @@ def check_module(tkey, devs):
 
 
 def run_case(case):
+    if case.get("history_independence"):
+        return history_independence(0)[1]
     if case.get("empty_synth"):
         return empty_synth()
     return check_module(case["type"], case["devs"])[0]
@@ -113,7 +115,85 @@ def rejected_dev(tkey, devs):
     return "+".join(d["k"] + ":" + str(d.get("n", d.get("p"))) for d in devs)
 
 
+def hi_cases(seed):
+    cases = []
+    for k in deviate.type_keys():
+        devs = deviate.module_devs(k, seed, spikes="few", opt8="few")
+        cases.append((k, []))
+        cases.append((k, [devs[(seed * 5 + 3) % len(devs)]]))
+        cases.append((k, [devs[-1]]))
+    for n in (0, 1, 5, 2, 96, 3):
+        cases.append(("MetaModule", [{"k": "opt", "n": "user_defined_controllers", "v": n},
+                                     {"k": "cmid", "n": f"user_defined_{max(1, n)}", "v": [3, 1, 0, 9]}] if n else
+                      [{"k": "opt", "n": "user_defined_controllers", "v": 0}]))
+    return cases
+
+
+def hi_pass(seed, order):
+    """Digest of (synth bytes, project bytes, loaded snapshot) of every case, evaluated in `order` in THIS process."""
+    import hashlib
+
+    import rv.api as rv
+
+    cases = list(enumerate(hi_cases(seed)))
+    if order == "reverse":
+        cases.reverse()
+    elif order == "interleaved":
+        cases = cases[::2] + cases[1::2]
+    out = {}
+    for i, (k, devs) in cases:
+        try:
+            mod = deviate.build(k, devs)
+            b1 = C.save(rv.Synth(mod))
+            p = rv.Project()
+            p.attach_module(mod)
+            b2 = C.save(p)
+            snap = repr(S.module(C.load_bytes(b1).module, in_project=False))
+            out[str(i)] = hashlib.sha1(b1).hexdigest()[:12] + hashlib.sha1(b2).hexdigest()[:12] + hashlib.sha1(snap.encode()).hexdigest()[:12]
+        except Exception as e:
+            out[str(i)] = "raise:" + type(e).__name__
+    return out
+
+
+def history_independence(seed):
+    """The bytes written for an object (and what loads back from them) must not depend on what was built /
+    saved / loaded before it in the same process (a cache or memo keyed too coarsely would make them do so).
+    A fixed list of cases — every type's default, two deviations per type, MetaModules with different
+    user-controller counts — is evaluated in three FRESH interpreters in forward, reverse and interleaved
+    order; the per-case digests of the three runs must be identical."""
+    import json
+    import os
+    import subprocess
+    import sys
+
+    vs = []
+    tables = {}
+    env = dict(os.environ, PYTHONPATH=treeenv.VERIF, PYTHONHASHSEED="0")
+    for order in ("forward", "reverse", "interleaved"):
+        code = ("import json; from rvmc import treeenv; treeenv.setup(); from checks import c02; "
+                f"print(json.dumps(c02.hi_pass({seed}, {order!r})))")
+        r = subprocess.run([sys.executable, "-c", code], capture_output=True, text=True, env=env, cwd=treeenv.VERIF)
+        if r.returncode != 0:
+            return 0, [C.viol("history-independence-run-failed", {"order": order}, {"stderr": r.stderr[-300:]},
+                              {"history_independence": True})]
+        tables[order] = json.loads(r.stdout.strip().splitlines()[-1])
+    cases = hi_cases(seed)
+    for i, (k, devs) in enumerate(cases):
+        row = {o: tables[o].get(str(i)) for o in tables}
+        if len(set(row.values())) != 1:
+            vs.append(C.viol("result-depends-on-process-history", {"type": k},
+                             {"devs": devs, "digests": row}, {"history_independence": True}))
+    return 3 * len(cases), vs[:10]
+
+
 def _task(t):
+    if t[0] == "history-independence":
+        r = C.new_result()
+        n, vs = history_independence(t[1])
+        r["evals"] = n
+        r["violations"] = vs
+        C.count(r, "history_independence_saves", n)
+        return r
     tkey, seed, mode, lo, hi = t
     r = C.new_result()
     devs = deviate.module_devs(tkey, seed, spikes="all" if mode == 1 else "few", opt8="all" if mode == 1 else "few")
@@ -140,7 +220,7 @@ def run(ctx):
     treeenv.setup()
     agg = C.Agg()
     ctx.add(empty_synth())
-    tasks = []
+    tasks = [("history-independence", ctx.seed)]
     for k in deviate.type_keys():
         n = len(deviate.module_devs(k, ctx.seed)) + 1
         for lo in range(0, n, 60):
@@ -166,6 +246,6 @@ def run(ctx):
         "exhaustive": True,
         "k": 2 if ctx.thorough else 1,
         "types": len(deviate.type_keys()),
-        "pairs": npairs,
+        "pairs": npairs, "history_independence_saves": agg.counters.get("history_independence_saves", 0),
         "samples": agg.samples,
     }
